@@ -222,10 +222,7 @@ theorem Rec.divSwapped_eq (a : Rec R) (c : R) (w : World R) :
 
 theorem Rec.neg_eq (a : Rec R) (w : World R) :
     a.neg w = a.unary (fun x => -x) (fun _ => -1) w := by
-  unfold Rec.neg
-  cases hah : a.history with
-  | none => simp [Rec.unary, hah]
-  | some h' => simp [Rec.subSwapped_eq, Rec.unary, hah, Subtraction.function, Subtraction.dy]
+  unfold Rec.neg Rec.unary; cases a.history <;> rfl
 
 theorem Rec.sin_eq (a : Rec R) (w : World R) : a.sin w = a.unary Sine.function Sine.dx w := by
   unfold Rec.sin Rec.unary; cases a.history <;> rfl
